@@ -9,7 +9,7 @@ import (
 // rangeLoops rewrites, in a view, hand-written element loops into the `for i, x := range xs` they stand for, so that
 // rules written against range loops keep seeing their constructs:
 //
-//	for i := 0; i < len(xs); i++ { … xs[i] … }            (also `for i, n := 0, len(xs); i < n; i++`)
+//	for i := 0; i < len(xs); i++ { … xs[i] … }            (also `for i, n := 0, len(xs); i < n; i++`; xs a local or parameter)
 //	for len(xs) > 0 { x := xs[0]; xs = xs[1:]; … }         a work list consumed from the front, xs dead afterwards
 //	for rest := xs; len(rest) > 0; rest = rest[1:] { … rest[0] … }
 //	for len(s) > 0 { r, size := utf8.DecodeRuneInString(s); s = s[size:]; … }   (s a string, dead afterwards)
@@ -424,24 +424,28 @@ func (n *loopNorm) indexToRange(x *ast.ForStmt, iv *types.Var, seq ast.Expr) *as
 	if et == nil {
 		return nil
 	}
-	// the sequence: a local variable or a chain of field selections on one, none of them assigned in the body
-	root := ast.Unparen(seq)
-	for {
-		if sel, ok := root.(*ast.SelectorExpr); ok {
-			if _, isField := info.Selections[sel]; !isField {
-				return nil
-			}
-			root = ast.Unparen(sel.X)
-			continue
-		}
-		break
-	}
-	rid, ok := root.(*ast.Ident)
+	// the sequence: a local variable or parameter that is not assigned in the body. (A field is not accepted: the index
+	// loop reads its length anew on every step and a call in the body may append to it - a range loop would not see that.)
+	rid, ok := ast.Unparen(seq).(*ast.Ident)
 	if !ok {
 		return nil
 	}
 	rootVar, _ := info.ObjectOf(rid).(*types.Var)
-	if rootVar == nil || n.assigns(x.Body, rootVar) || n.assigns(x.Body, iv) {
+	if rootVar == nil || rootVar.IsField() || (rootVar.Pkg() != nil && rootVar.Parent() == rootVar.Pkg().Scope()) || n.assigns(x.Body, rootVar) || n.assigns(x.Body, iv) {
+		return nil
+	}
+	// ... and not captured by a literal of the body (which could append to it)
+	captured := false
+	ast.Inspect(x.Body, func(m ast.Node) bool {
+		if lit, isLit := m.(*ast.FuncLit); isLit {
+			if n.mentions(lit.Body, rootVar) {
+				captured = true
+			}
+			return false
+		}
+		return !captured
+	})
+	if captured {
 		return nil
 	}
 	seqStr := ExprStr(seq)
